@@ -151,6 +151,7 @@ Definition t_stream_sym := "viol:stream-symlink-clash-fails".
 Definition t_alias := "viol:db-entry-aliased-through-symlinked-directory".
 Definition t_thru := "viol:file-unreachable-after-link-replaced".
 Definition t_dup := "viol:db-duplicate-path-records-last-header".
+Definition t_byname := "viol:lazy-content-read-by-name-of-last-entry".
 
 Definition is_dir_kind (k : kind) : bool := kind_eqb k KDir.
 
@@ -350,7 +351,7 @@ Definition has_dir_headers (pk : pkg) (p : path) : bool :=
   | _ => forallb (is_dir_hdr (p_files pk)) (prefixes (parent p))
   end.
 
-Definition check_recorded_once (pre : list tnode) (alias thru : path -> bool) (pkgs : list pkg) (db : list dbpkg) (tree : list tnode) (h : hdr) (shipper : pkg) : list string :=
+Definition check_recorded_once (b : backend) (pre : list tnode) (alias thru dup : path -> bool) (pkgs : list pkg) (db : list dbpkg) (tree : list tnode) (h : hdr) (shipper : pkg) : list string :=
   match h_kind h with
   | KReg =>
       match recorders pkgs db (h_path h), tree_lookup tree (h_path h) with
@@ -364,7 +365,10 @@ Definition check_recorded_once (pre : list tnode) (alias thru : path -> bool) (p
           else if alias (h_path h) then [t_alias] else ["viol:db-file-unrecorded"]
       | [pk], Some n =>
           tag_if (negb (tkind_eqb (t_kind n) TReg && ships_content pk (h_path h) (t_sum n)))
-                 (if alias (h_path h) then t_alias else "viol:db-owner-wrong")
+                 (if is_lazy b && tkind_eqb (t_kind n) TOther && dup (h_path h) then t_byname
+                       (* tarfs, a name shipped twice by one package: the node of the earlier
+                          entry is read through the later entry, a link that leads nowhere *)
+                  else if alias (h_path h) then t_alias else "viol:db-owner-wrong")
       | _ :: _ :: _, Some n =>
           (* a file that was there before the install is owned by nobody: every
              package shipping the same bytes records it (finding C07-F8) *)
@@ -378,5 +382,5 @@ Definition check_recorded_once (pre : list tnode) (alias thru : path -> bool) (p
   | _ => []
   end.
 
-Definition check_once_all (pre : list tnode) (alias thru : path -> bool) (pkgs : list pkg) (db : list dbpkg) (tree : list tnode) : list string :=
-  nodup string_dec (flat_map (fun pk => flat_map (fun h => check_recorded_once pre alias thru pkgs db tree h pk) (p_files pk)) pkgs).
+Definition check_once_all (b : backend) (pre : list tnode) (alias thru dup : path -> bool) (pkgs : list pkg) (db : list dbpkg) (tree : list tnode) : list string :=
+  nodup string_dec (flat_map (fun pk => flat_map (fun h => check_recorded_once b pre alias thru dup pkgs db tree h pk) (p_files pk)) pkgs).
